@@ -251,3 +251,39 @@ def narrowing_len_sweep(ck, c, scope, name_pat, rule="CMP"):
                               [a[1] for a in o if a[0] == "cast"][0], f.loc(cx["bb"]))
     ck.ob(rule, "-", "no-narrowed-length-comparisons", True, "%d comparisons in verifier-side functions scanned for narrowed lengths" % n, "", nontrivial=False)
     return n
+
+
+EQ_POLARITY_EXCEPTIONS = {
+    "concordium_base::id::identity_provider::validate_request_common":
+        "`number_of_ars == 0` is itself the refusal (a request must name at least one anonymity revoker)",
+    "concordium_base::id::identity_provider::validate_request_common::{closure#0}":
+        "closure of `any(|(k1, k2)| k1 != k2)`: true means a mismatch was found, the caller refuses on true",
+}
+
+
+def eq_polarity_sweep(ck, c, scope, name_pat, rule="CMP", exceptions=None):
+    """In verifier-side functions an equality test that can refuse refuses when the two sides DIFFER (43 of 45 sites on the
+    pinned tree; the two others are documented).  A flipped test (`==` for `!=`) accepts exactly the inputs it should refuse."""
+    exceptions = dict(EQ_POLARITY_EXCEPTIONS, **(exceptions or {}))
+    n = 0
+    for p in sorted(c.paths()):
+        if not scope.search(p) or not name_pat.search(p) or re.search(r"::tests?::|::test_", p):
+            continue
+        for b in c.get_all(p):
+            f = Fn(b)
+            k = 0
+            for cx in rules.comparisons(f):
+                if cx["op"] not in ("Eq", "Ne"):
+                    continue
+                rel, d = rules.cmp_rejects(f, cx)
+                if rel is None:
+                    continue
+                n += 1
+                k += 1
+                if rel == "Eq" and p in exceptions:
+                    ck.ob(rule, p, "equality-test-refuses-on-difference#%d" % k, True, "documented exception: " + exceptions[p], f.loc(cx["bb"]), nontrivial=False)
+                    continue
+                ck.ob(rule, p, "equality-test-refuses-on-difference#%d" % k, rel == "Ne",
+                      "refuses when the compared values differ" if rel == "Ne" else
+                      "refuses when the compared values are EQUAL (and lets them pass when they differ): %s" % d, f.loc(cx["bb"]))
+    return n
